@@ -444,7 +444,7 @@ Section Steps.
   Ltac step_open Hc Hne Hq Hsl Hop :=
     unfold line_step; cbn [p_ctx c_scan];
     rewrite (scan_line_plain asm _ _ Hc Hne Hq Hsl Hop);
-    unfold set_scan, set_state, emit;
+    unfold line_body, set_scan, set_state, emit;
     cbn [negb p_ctx p_state p_stack p_out p_map c_macros c_scan].
 
   (** ** an ordinary line: emitted when Active, dropped otherwise *)
@@ -590,7 +590,7 @@ Section Steps.
     intros sc o mp st stk line Hc.
     unfold line_step; cbn [p_ctx c_scan].
     rewrite (scan_line_plain asm else_line sc Hc eq_refl eq_refl eq_refl eq_refl).
-    reflexivity.
+    unfold line_body. reflexivity.
   Qed.
 
   Lemma line_step_endif : forall sc o mp st s0 stk line,
@@ -601,7 +601,7 @@ Section Steps.
     intros sc o mp st s0 stk line Hc.
     unfold line_step; cbn [p_ctx c_scan].
     rewrite (scan_line_plain asm endif_line sc Hc eq_refl eq_refl eq_refl eq_refl).
-    reflexivity.
+    unfold line_body. reflexivity.
   Qed.
 
   (** the head line of a group, no macro defined *)
@@ -1502,7 +1502,7 @@ Proof.
   pose proof (not_active st Hst) as Hna.
   unfold line_step; cbn [p_ctx c_scan];
     rewrite (scan_line_plain asm _ _ Hc Hne Hq Hsl Hop);
-    unfold set_scan, set_state, emit;
+    unfold line_body, set_scan, set_state, emit;
     cbn [negb p_ctx p_state p_stack p_out p_map c_macros c_scan].
   rewrite Hna.
   apply orb_true_iff in Hd; destruct Hd as [Hd|Hd];
@@ -1557,8 +1557,10 @@ Print Assumptions inactive_is_inert_no_macros.
 (** Without the substitution hypothesis the statement is false: the model (like the code)
     substitutes macros in skipped lines too and then looks for a directive in the result.
     With [x] defined as [#endif], the ordinary line "x" inside a skipped region closes the
-    group; with [x] defined as [#bogus] it is a syntax error although the region is skipped;
-    and a skipped [#include] / [#error] line is rewritten before being recognised. *)
+    group, and a skipped [#include] / [#error] line is rewritten before being recognised.
+    (With [x] defined as [#bogus] the line used to be a syntax error although the region is
+    skipped; since the repair an unknown directive in a region that is not selected is ignored:
+    Proofs/SkipFacts.v.) *)
 Example inactive_not_inert_with_macros :
   let rec := fun (_ : string) (_ : option (string * N)) (_ : bool) (_ : list string) (p : pstate) => POk p in
   let p ms := mkP (mkCtx ms (mkScan false 0 [])) "" [] Skip [Active] in
@@ -1566,7 +1568,7 @@ Example inactive_not_inert_with_macros :
   /\ line_step rec [] "f.c" None false (p [("x", MObj "#endif")]) 1 ("x" ++ nl)
      = POk (mkP (mkCtx [("x", MObj "#endif")] (mkScan false 0 [])) "" [] Active [])
   /\ line_step rec [] "f.c" None false (p [("x", MObj "#bogus")]) 1 ("x" ++ nl)
-     = PErr (mkErr ESyntax "f.c" 1 None "Unrecognised preprocessor directive")
+     = POk (p [("x", MObj "#bogus")])
   /\ inert_ok ("#error boom" ++ nl) = true
   /\ line_step rec [] "f.c" None false (p [("error", MObj "else")]) 1 ("#error boom" ++ nl)
      = PErr (mkErr ESyntax "f.c" 1 None "Unexpected expression after `#else`").
